@@ -442,6 +442,9 @@ func (s *Service) Truncate(ctx context.Context, tp TruncateParams, otf OnTruncat
 			return ctx.Err() == nil
 		}
 
+		// acknowledged records count in Size() and Count() only after their flush: a dry run and a real run must see
+		// the same partition
+		j.Sync()
 		size := j.Size()
 		recs := j.Count()
 		if size == 0 {
